@@ -1,9 +1,9 @@
 package vc
 
 import (
-	"crypto/sha256"
 	"bytes"
 	"context"
+	"crypto/sha256"
 	"fmt"
 	"os"
 	"path/filepath"
@@ -18,14 +18,14 @@ import (
 )
 
 type Session struct {
-	Ex        *Exec
-	RepoDir   string
-	SpecDir   string
-	WorkDir   string
-	TimeoutS  int
-	Parallel  int
-	ContractFiles []string
-	LoadTime  float64
+	Ex                 *Exec
+	RepoDir            string
+	SpecDir            string
+	WorkDir            string
+	TimeoutS           int
+	Parallel           int
+	ContractFiles      []string
+	LoadTime           float64
 	IdenticalInstances map[string]int
 }
 
